@@ -135,10 +135,14 @@ func (a *analysis) mock(np NamePair) {
 			wantResets["Reset"+m+"Calls"] = true
 		}
 	}
+	accessors := map[string]bool{}
+	for m := range imethods {
+		accessors[m+"Calls"] = true
+	}
 	for i := 0; i < ms.Len(); i++ {
 		n := ms.At(i).Obj().Name()
-		if imethods[n] {
-			continue
+		if imethods[n] || (accessors[n] && !wantResets[n]) {
+			continue // an interface method, or the accessor of one (a method ResetX has the accessor ResetXCalls)
 		}
 		if strings.HasPrefix(n, "Reset") && strings.HasSuffix(n, "Calls") {
 			if !wantResets[n] {
